@@ -314,8 +314,15 @@ NormalFormOf(d) == (Formattable(d) /\ Specified(d)) =>
 
 \* add_change: "insert before the trailing blank lines"
 LastNonBlank(ch) == LET S == {j \in 1..Len(ch) : ~IsBlankLine(ch[j])} IN IF S = {} THEN 0 ELSE CHOOSE j \in S : \A k \in S : k <= j
-MAddChange(ch, ln) == LET j == LastNonBlank(ch) IN
-                      IF j = 0 THEN Append(ch, ln) ELSE SubSeq(ch, 1, j) \o <<ln>> \o SubSeq(ch, j + 1, Len(ch))
+\* WHERE add_change puts the line among the block's change lines is not part of C04 / C15: the action is
+\* nondeterministic over the position (InsertChoices); RulePos is what the code does today ("before the
+\* trailing blank lines") and only serves diagnostics (a different position is specification drift).
+RulePos(ch) == LET j == LastNonBlank(ch) IN IF j = 0 THEN Len(ch) + 1 ELSE j + 1
+InsertChoices(ch) == 1..(Len(ch) + 1)
+InsAt(s, p, x) == SubSeq(s, 1, p - 1) \o <<x>> \o SubSeq(s, p, Len(s))
+MAddChange(ch, ln) == InsAt(ch, RulePos(ch), ln)
+\* v = <<line id>> (today's position) or <<line id, position>>
+MAddChangeAt(ch, ln, v) == IF Len(v) >= 2 /\ v[2] > 0 THEN InsAt(ch, v[2], ln) ELSE MAddChange(ch, ln)
 
 \* SetVersionWS: Changelog.version / set_version with a valid version string plus leading / trailing white
 \* space or a newline.  Outside DESIGN D3, but "unspecified-but-consistent": the call either raises
@@ -333,8 +340,8 @@ EditApply(d, op, v) ==
                                                     au |-> v[6], da |-> v[7], sep |-> 2, nt |-> FALSE, tr |-> NewTrailing(v[8])]>> \o @]
     [] op = "NewBlockEmpty" -> [d EXCEPT !.bl = <<[h |-> NoHdr, k |-> "TopOK", ch |-> <<>>, au |-> None, da |-> None,
                                                     sep |-> 2, nt |-> FALSE, tr |-> NewTrailing(v[1])]>> \o @]
-    [] op = "AddBlank"      -> [d EXCEPT !.bl[1].ch = MAddChange(@, [c |-> "Blank", id |-> v[1], h |-> <<>>])]
-    [] op = "AddChange"     -> [d EXCEPT !.bl[1].ch = MAddChange(@, [c |-> "Change", id |-> v[1], h |-> <<>>])]
+    [] op = "AddBlank"      -> [d EXCEPT !.bl[1].ch = MAddChangeAt(@, [c |-> "Blank", id |-> v[1], h |-> <<>>], v)]
+    [] op = "AddChange"     -> [d EXCEPT !.bl[1].ch = MAddChangeAt(@, [c |-> "Change", id |-> v[1], h |-> <<>>], v)]
     [] op = "SetPackage"    -> [d EXCEPT !.bl[1].h[1] = v[1]]
     [] op = "SetVersion"    -> [d EXCEPT !.bl[1].h[2] = v[1]]
     [] op = "SetVersionWS"  -> IF v[1] = 0 THEN d ELSE [d EXCEPT !.bl[1].h[2] = v[1]]
@@ -375,7 +382,7 @@ HistOps(d) ==
    \cup {<<nm, i, 0>> : nm \in {"BPair", "ChAppend", "AddTrailing"}, i \in 1..n}
    \cup {<<"ChInsert", i, 1>> : i \in 1..n}
    \cup {<<"ChDelete", i, Len(d.bl[i].ch)>> : i \in {j \in 1..n : Len(d.bl[j].ch) > 0}}
-   \cup {<<"NewBlockFull", 0, 0>>} \cup (IF n > 0 THEN {<<"AddChange", 0, 0>>} ELSE {})
+   \cup {<<"NewBlockFull", 0, 0>>} \cup (IF n > 0 THEN {<<"AddChange", 0, p>> : p \in InsertChoices(d.bl[1].ch)} ELSE {})
    \cup {<<"MutVer", i, 0>> : i \in 1..n}
 \* MutVer: take the Version object the API hands out for block i (block.version, cl.version, cl.versions[i])
 \* and change one of its components in place.  The handed-out object is a value of its own: the document
@@ -384,7 +391,7 @@ HValid(d, op) ==
    LET n == Len(d.bl) IN
    CASE op[1] = "Fmt" -> op[2] \in 0..n
      [] op[1] \in {"NewBlockFull"} -> TRUE
-     [] op[1] = "AddChange" -> n > 0
+     [] op[1] = "AddChange" -> n > 0 /\ op[3] \in {0} \cup InsertChoices(d.bl[1].ch)
      [] op[1] = "ChInsert" -> op[2] \in 1..n /\ op[3] \in 1..(Len(d.bl[op[2]].ch) + 1)
      [] op[1] = "ChDelete" -> op[2] \in 1..n /\ op[3] \in 1..Len(d.bl[op[2]].ch)
      [] OTHER -> op[2] \in 1..n
@@ -404,7 +411,7 @@ HApply(d, op, v) ==
      [] op[1] = "ChDelete"    -> [d EXCEPT !.bl[i].ch = DeleteAt(@, op[3])]
      [] op[1] = "AddTrailing" -> [d EXCEPT !.bl[i].tr = Append(@, [c |-> "Blank", id |-> v[1], h |-> <<>>])]
      [] op[1] = "NewBlockFull" -> EditApply(d, "NewBlockFull", v)
-     [] op[1] = "AddChange"   -> EditApply(d, "AddChange", v)
+     [] op[1] = "AddChange"   -> EditApply(d, "AddChange", <<v[1], op[3]>>)
 HModelArgs(op, k) ==
    CASE op[1] = "NewBlockFull" -> <<400 + 10 * k, 401 + 10 * k, 402 + 10 * k, 403 + 10 * k, Dflt, 405 + 10 * k, 406 + 10 * k, 300>>
      [] op[1] \in {"ChAppend", "ChInsert"} -> <<200 + k, 0>>
@@ -417,7 +424,8 @@ NoText == <<>>                       \* "nothing kept"; a kept text is <<text>>
 \* vt: Bug = "InternedVersions" -- one shared Version object per version string: the set of <<token written,
 \*     token shown>> after in-place edits of handed-out objects;  mut: blocks (of this object) whose
 \*     handed-out Version was edited: what THEY show as version afterwards is not judged
-RInit == [rc |-> <<>>, om |-> <<>>, out |-> <<>>, fresh |-> FALSE, what |-> 0, vt |-> {}, mut |-> {}]
+\* std: every add_change of the history so far used today's position (RulePos)
+RInit == [rc |-> <<>>, om |-> <<>>, out |-> <<>>, fresh |-> FALSE, what |-> 0, vt |-> {}, mut |-> {}, std |-> TRUE]
 Shown(r, tok) == IF \E x \in r.vt : x[1] = tok THEN (CHOOSE x \in r.vt : x[1] = tok)[2] ELSE tok
 RBlock(d, r, i) == IF BlockRenderCache /\ i <= Len(r.rc) /\ r.rc[i] # NoText THEN r.rc[i][1] ELSE FormatBlock(d.bl[i])
 RECURSIVE ROlder(_, _, _)
@@ -552,7 +560,10 @@ EofStep == /\ \/ Mode = "edit"
            /\ UNCHANGED <<P, aea, sraised, text, gen, budget, ops, rs>>
 EditStep(op) == /\ Mode = "edit" /\ phase = "edit" /\ Len(ops) < MaxEdits
                 /\ EditEnabled(D, op)
-                /\ D' = EditApply(D, op, ModelArgs(op, Len(ops))) /\ ops' = Append(ops, op)
+                /\ IF op \in {"AddBlank", "AddChange"}
+                   THEN \E p \in InsertChoices(D.bl[1].ch) : D' = EditApply(D, op, <<200 + Len(ops), p>>)      \* any position
+                   ELSE D' = EditApply(D, op, ModelArgs(op, Len(ops)))
+                /\ ops' = Append(ops, op)
                 /\ UNCHANGED <<P, aea, sraised, text, gen, budget, phase, rs>>
 
 \* (histories of more than two calls start with a formatting call: "format, then edit, then format";
@@ -564,6 +575,7 @@ HistStep == /\ Mode = "hist" /\ phase = "edit" /\ Len(ops) < MaxEdits
                  /\ ops' = Append(ops, op)
                  /\ rs' = IF op[1] = "Fmt" THEN RFormat(D, rs, op[2])
                           ELSE IF op[1] = "MutVer" THEN RMutVer(rs, D, op[2], 400 + 10 * Len(ops))
+                          ELSE IF op[1] = "AddChange" THEN [RInvalidate(rs, op) EXCEPT !.std = @ /\ op[3] = RulePos(D.bl[1].ch)]
                           ELSE RInvalidate(rs, op)
             /\ UNCHANGED <<P, aea, sraised, text, gen, budget, phase>>
 
@@ -657,5 +669,5 @@ SetToSeq0(S) == IF S = {} THEN <<>> ELSE LET x == CHOOSE y \in S : \A z \in S : 
 EmitHist == (Emit /\ Mode = "hist" /\ phase = "edit" /\ rs.fresh) =>
                PrintT(<<"CASE", ToJson([t |-> TextClasses, aea |-> aea, ops |-> ops, what |-> rs.what,
                                         out |-> LineToks(RefOut(D, rs.what)), doc |-> Struct(D),
-                                        base |-> Struct(ParseText(text, aea).doc), mut |-> SetToSeq0(rs.mut)])>>)
+                                        base |-> Struct(ParseText(text, aea).doc), mut |-> SetToSeq0(rs.mut), std |-> rs.std])>>)
 =============================================================================
